@@ -11,8 +11,9 @@ def build(ctx, prec="d", flavor="hooks"):
     if flavor == "vendor":      # BLAS-3 (dtrsm/dgemm in ?gstrs) is not in /repo/CBLAS: use the system OpenBLAS as the pinned build does
         extra = ["/usr/lib/x86_64-linux-gnu/libopenblas.so"]
     # lock_jitter.c: random delay before every pthread_mutex_lock of the library (a legal schedule), on for perturbed cases
-    return ctx.cc_harness("drv_%s_%s" % (prec, flavor), ["drv_harness.c", "sp_ienv_verif.c", "lock_jitter.c"], lib, fl + [PRECS[prec]],
-                          extra_link=extra + ["-Wl,--wrap=pthread_mutex_lock"])
+    # thread_track.c: every thread the library creates is counted exactly (trampoline), the k-th creation can be made to fail
+    return ctx.cc_harness("drv_%s_%s" % (prec, flavor), ["drv_harness.c", "sp_ienv_verif.c", "lock_jitter.c", "thread_track.c"], lib, fl + [PRECS[prec]],
+                          extra_link=extra + ["-Wl,--wrap=pthread_mutex_lock", "-Wl,--wrap=pthread_create"])
 
 
 def hexf(x):
@@ -44,13 +45,33 @@ def case_text(c):
     if c.get("ienv"):
         L.append("ienv " + " ".join(map(str, c["ienv"])))
     L.append("thresh %s" % hexf(c.get("thresh", 1.0)))
-    for k in ("usepr", "symmetric", "fact", "trans", "trace", "dumplu", "timeout", "ldb", "ldx"):
+    for k in ("usepr", "symmetric", "fact", "trans", "trace", "dumplu", "timeout", "ldb", "ldx", "createfail"):
         if k in c:
             L.append("%s %d" % (k, c[k]))
     if c.get("perturb"):
         L.append("perturb %d %r %d" % tuple(c["perturb"]))
     L.append("RUN")
     return "\n".join(L) + "\n"
+
+
+def crash_site(rc, err):
+    """where a run died, precision letter folded: 'heap-buffer-overflow@p?gstrf_bmod1D', 'SEGV@p?gstrf_pivotL', 'signal:11', 'abort:<msg>'"""
+    import re
+    m = re.search(r"ERROR: AddressSanitizer: (?:attempting )?([A-Za-z-]+)", err or "")
+    kind = m.group(1) if m else None
+    fn = None
+    for fm in re.finditer(r"#\d+ 0x[0-9a-f]+ in (\w+) [^\n]*?/(?:SRC|CBLAS)/(\w+)\.c", err or ""):
+        if fm.group(2) in ("dcomplex", "scomplex"):      # complex leaf helpers (z_abs1 ...): name the caller
+            continue
+        fn = fm.group(1)
+        break
+    if kind or fn:
+        fn = re.sub(r"^(p|sp_)?[sdcz](g[a-z]|sp_|lsolve|usolve|matvec|myblas|PivotGrowth|Create|Copy|Print|lan|laq)", lambda q: (q.group(1) or "") + "?" + q.group(2), fn or "?")
+        return "%s@%s" % (kind or "crash", fn)
+    m = re.search(r"(Storage for [A-Za-z ]+ exceeded|Memory allocation failed|Malloc fails for [\w\[\]]+)", err or "")
+    if m:
+        return "abort:" + m.group(1)
+    return "signal:%s" % (-rc if isinstance(rc, int) and rc < 0 else rc)
 
 
 def run_batch(exe, cases, timeout=600, env=None):
@@ -92,9 +113,9 @@ def run_batch(exe, cases, timeout=600, env=None):
                 # crashed outside a case (or after a timeout exit)
                 rest = [c for c in pending if c.get("id", 0) not in done_ids]
                 if rest and rc != 96:
-                    results[rest[0].get("id", 0)] = {"crash": rc, "stderr": err[-2000:], "id": rest[0].get("id", 0)}
+                    results[rest[0].get("id", 0)] = {"crash": rc, "stderr": err[-2000:], "site": crash_site(rc, err), "id": rest[0].get("id", 0)}
             elif bad not in results:
-                results[bad] = {"crash": rc, "stderr": err[-2000:], "id": bad}
+                results[bad] = {"crash": rc, "stderr": err[-2000:], "site": crash_site(rc, err), "id": bad}
                 results[bad].update(abortlog.get(bad, {}))
         done_ids = set(results)
         newp = [c for c in pending if c.get("id", 0) not in done_ids]
